@@ -151,6 +151,10 @@ func main() {
 		add("Formulas.lean", c, e)
 	}
 	{
+		c, e := passFormulasC(root)
+		add("FormulasC.lean", c, e)
+	}
+	{
 		pkgs := []*Pkg{root}
 		for _, sub := range []string{"schnorr", "ecckd"} {
 			os.Chdir(filepath.Join(*repo, sub))
